@@ -386,7 +386,11 @@ def run_regcrc(cfg, tier, seed):
             run.violation(f"{kind}:output-not-bijective", dict(distinct_outputs=len(set(outtab))), [dict(dut=kind, mode=None, state=0, data=0, junk=0)])
         menu = cfg.get("menu")
         if menu is None:
-            menu = [0, 0xFF, 0xA5] + [1 << i for i in range(8)] if nbits == 8 else [0, 0xFFFFFFFF, 0x02000112, 1, 1 << 31]
+            if nbits == 8:
+                menu = [0] + [1 << i for i in range(8)] if mode == "rx" else [0, 1, 0x80, 0xFF]
+                if tier != "quick": menu = sorted(set(menu + [0xFF, 0xA5, 0x5A, 0x0F] + [1 << i for i in range(8)]))
+            else:
+                menu = [0, 0xFFFFFFFF, 0x02000112] + ([1, 1 << 31] if tier != "quick" else [])
         strobe, port, _, _ = dut.modes[mode]
         poly, _ = POLY[kind]
         for s in range(lo, hi):
